@@ -259,7 +259,7 @@ fn cmap_probes() -> Vec<Vec<u8>> {
 
 /// The incremental update of Adversary!ChainUpdate with m objects: a chain through an indirection the loader follows
 /// while parsing (same layout byte for byte; TLC writes it with 3 objects, the worker with n).
-fn chain_update(kind: &str, m: usize, start: usize, hdr: usize, prevsx: u64) -> Vec<u8> {
+fn chain_update(kind: &str, m: usize, start: usize, hdr: usize, prevsx: &str) -> Vec<u8> {
     const FIRST: usize = 70001;
     let mut b: Vec<u8> = vec![];
     if kind == "prev" {
@@ -519,7 +519,8 @@ fn worker_case(line: &str) -> String {
     let mut chain_at = usize::MAX;
     if let Some(c) = case.get("chain").and_then(Value::as_array) {
         let (s0, e0, n) = (c[0].as_u64().unwrap_or(0) as usize, c[1].as_u64().unwrap_or(0) as usize, c[2].as_u64().unwrap_or(3) as usize);
-        let (hdr, prev, kind) = (c[3].as_u64().unwrap_or(1) as usize, c[4].as_u64().unwrap_or(0), c[5].as_str().unwrap_or("length"));
+        let prev_owned = c[4].as_str().map(String::from).unwrap_or_else(|| c[4].as_u64().unwrap_or(0).to_string());
+        let (hdr, prev, kind) = (c[3].as_u64().unwrap_or(1) as usize, prev_owned.as_str(), c[5].as_str().unwrap_or("length"));
         if s0 >= 1 && e0 == bytes.len() && s0 <= e0 {
             if case["chain_check"].as_bool().unwrap_or(false) {
                 let mut model = vec![b'\n'];
